@@ -59,3 +59,12 @@ claim("C08",
       "Trusted: CPython, CrossHair, z3; sub-counters return true counts; uniformity of a whole specification is the composition of "
       "the per-rule results (argued in DESIGN.md) and is additionally exercised end-to-end under C01's group.",
       "CrossHair symbolic execution (pattern T: symbolic counts and draws, unbounded for unions) + z3", "DESIGN.md 2/C08")
+claim("C07",
+      "Bounded symbolic execution of the real object-generation code (Rule._ensure_level_objects, get_sub_objects, compositions, "
+      "forward/backward maps of plain, equivalence, reverse-of-equivalence and path rules) on stub classes: the number of objects "
+      "of every (child, size, statistic value) is a solver variable; on every path the generated multiset equals the reference "
+      "multiset (each object once, right statistic), its size equals the count the same rule reports, and object->parts->object "
+      "round-trips with parts in the right child. Verification rules are asked sizes in every order.",
+      "Trusted: CPython, CrossHair, z3, reference object semantics of a genuine union/product; stub classes/strategies. Whole "
+      "specifications (objects of real universes) are exercised under C01's end-to-end group.",
+      "CrossHair symbolic execution (pattern T: symbolic object-list lengths) + z3", "DESIGN.md 2/C07")
